@@ -183,3 +183,17 @@ package util
 //@   modifies nothing
 //@   ensures[valid-utf8-copies] len(result) == len(strList) && isfresh(result) && forall i int :: 0 <= i && i < len(strList) ==> validUTF8(result[i]) && (!shared(strList[i]) ==> !shared(result[i]))
 //@   loop 1: invariant -1 <= rangeindex && rangeindex < len(strList) && len(destList) == len(strList) && isfresh(destList) && forall i int :: 0 <= i && i <= rangeindex ==> validUTF8(destList[i]) && (!shared(strList[i]) ==> !shared(destList[i]))
+
+// ==== client numbers (C17 C07): the number of a connection is its own socket descriptor - the kernel hands out a descriptor
+// only while no other open socket of the process has it, which is what makes the number unique among the open connections
+// (the sink table of the reloadable orchestrator is indexed by it). lastconnfd: ghost - the descriptor last read. Trusted
+// (SyscallConn / Control are outside the subset).
+//@ ghost var lastconnfd int
+//@ ghost var lastfdconn *net.TCPConn
+//@ func GetFDFromTCPConnOrPanic(conn *net.TCPConn) uintptr
+//@   trusted
+//@   modifies lastconnfd, lastfdconn
+//@   ghostset lastconnfd := result
+//@   ghostset lastfdconn := conn
+//@   ensures 0 <= result && result < 2147483648 && lastconnfd == result && lastfdconn == conn   // a descriptor is a non-negative C int
+
